@@ -1,4 +1,4 @@
-HOOK_COMMITS = ["4a5d5ec", "354857d", "e9ccdd0"]
+HOOK_COMMITS = ["4a5d5ec", "354857d", "e9ccdd0", "ed88e47"]
 NOT_CLAIMED = {}
 META = {
     "C01": {
@@ -96,7 +96,7 @@ META = {
         "technique": 'Lean 4 invariant proofs + regenerated constants (decide) + differential correspondence at limit boundaries',
     },
     "C16": {
-        "text": "Kernel-checked theorems about the tick decision for every open set, clock reading and Go map/heap order: every due batch (empty, idle, too old, full) is flushed; what is left is below the memory limit; pressure flushes go largest-first. The real tick handler is fired by the harness at chosen points and its flush set compared. PARTIAL: that a tick is handled within one tick period is Go's ticker/select, not exhibited by the model.",
+        "text": "Kernel-checked theorems about the tick decision for every open set, clock reading and Go map/heap order: every due batch (empty, idle, too old, full) is flushed; what is left is below the memory limit; pressure flushes go largest-first. The real tick handler is fired by the harness at chosen points and its flush set compared; the free-running real loop (real ticker, real select) is additionally run under a standing input backlog and the age of every batch at hand-over is measured against maximum age + tick (+ slack). PARTIAL: that a tick is handled within one tick period is Go's ticker/select, not exhibited by the model (measured, not proved).",
         "note": 'Trusted: Lean kernel, harness; timing of ticker delivery is outside the model.',
         "technique": 'Lean 4 decision-logic proofs + differential correspondence of the real tick handler',
     },
@@ -111,7 +111,7 @@ META = {
         "technique": 'Lean 4 induction over interleaved atomic steps + regenerated table (decide) + differential correspondence',
     },
     "C17": {
-        "text": 'Kernel-checked theorem about a process model instantiated with the shutdown structure of every stage loop REGENERATED from the source on every run (first defer is shutdown(), shutdown calls CancelFunc before a direct recover(), main waits on the context): the death of any stage by return or panic raises the shared termination signal, no panic escapes, and after the signal every stage stops at its next loop top. The safety half (nothing acknowledged beyond what the sink accepted after a fault) is judged on the assembled real stages with injected faults by Lean-evaluated monitors. PARTIAL: defer/recover/goroutine semantics are the Go runtime.',
+        "text": 'Kernel-checked theorem about a process model instantiated with the shutdown structure of every stage loop REGENERATED from the source on every run (first defer is shutdown(), shutdown calls CancelFunc before a direct recover(), main waits on the context): the death of any stage by return or panic raises the shared termination signal, no panic escapes, and after the signal every stage stops at its next loop top. That this signal is the process-wide one rests on wiring facts regenerated from app/runner.go and the whole source (exactly one ShutdownHandler is ever built, nobody rewrites its fields, app.New hands it to every stage, Runner.Start launches every stage), and the real app.New + Runner.Start is run with one injected stage fault per case. Retry budgets: a model of cenkalti/backoff NextBackOff/Retry proves that a policy with a budget and Stop = backoff.Stop gives up within the budget and that a policy without the Stop field never does; the policy literals are regenerated from the factories and run through the real library under a fake clock. The safety half (nothing acknowledged beyond what the sink accepted after a fault) is judged on the assembled real stages with injected faults by Lean-evaluated monitors. PARTIAL: defer/recover/goroutine semantics are the Go runtime.',
         "note": "Trusted: Lean kernel, factgen's structural extraction, Go defer/recover semantics, the fault-injection harness.",
         "technique": 'Lean 4 theorem over regenerated structural facts + fault-injection harness with Lean-evaluated monitors',
     },
